@@ -371,7 +371,7 @@ func runRace(c RaceCase) pbt.Verdict {
 	}
 	// Every poll that did not find a violation is followed by a brief pause (pacing only: it keeps
 	// the pollers from starving the writer of CPU; no verdict depends on it).
-	idle := func() { time.Sleep(40 * time.Microsecond) }
+	idle := func() { time.Sleep(80 * time.Microsecond) }
 	nLoops := 0
 	for i := 0; i < pollers; i++ {
 		nLoops += 3
@@ -431,7 +431,7 @@ func runRace(c RaceCase) pbt.Verdict {
 		nLoops++
 		w.loop(func() {
 			e.cas.VerifDrainNext()
-			time.Sleep(20 * time.Microsecond) // pacing only; nothing depends on it
+			time.Sleep(80 * time.Microsecond) // pacing only; nothing depends on it
 		})
 	}
 	// Structural barrier: every goroutine has completed one iteration before the first write.
@@ -564,19 +564,58 @@ func runRace(c RaceCase) pbt.Verdict {
 		classes["race-poller-read-error-ignored"] = true
 	}
 
-	// Quiescence, sequentially, with the oracle of part "store".
-	contentOf := map[string][]byte{name: blob}
-	names := []string{name}
+	// Quiescence, sequentially, with the oracle of part "store" (streaming comparison instead of
+	// io.ReadAll: the blobs are large).
+	qbuf := make([]byte, 256<<10)
+	qsums := map[int64][]uint32{}
+	observeOne := func(when string) string {
+		if r, err := e.cas.GetCacheFileReader(name); err == nil {
+			match, n, sum, rerr := servedIs(r, blob, name, qbuf)
+			r.Close()
+			if rerr != nil {
+				return fmt.Sprintf("%s: blob %s opens but reading fails: %v", when, name, rerr)
+			}
+			if !match {
+				return fmt.Sprintf("blob served under a digest it does not hash to (GetCacheFileReader)\n  %s: name %s serves %d bytes hashing to %s", when, name, n, sum)
+			}
+			classes["race-blob-visible-at-end"] = true
+		}
+		if st, err := e.cas.GetCacheFileStat(name); err == nil && st.Size() != int64(len(blob)) {
+			return fmt.Sprintf("size served under a digest does not belong to its content (GetCacheFileStat)\n  %s: name %s stats to %d bytes, the content of the digest has %d", when, name, st.Size(), len(blob))
+		}
+		var tm metadata.TorrentMeta
+		if err := e.cas.GetCacheFileMetadata(name, &tm); err == nil {
+			if msg := refMetaInfoMemo(tm.MetaInfo, name, blob, qsums); msg != "" {
+				return fmt.Sprintf("torrent metainfo served under a digest does not describe its content (GetCacheFileMetadata)\n  %s: name %s: %s", when, name, msg)
+			}
+		}
+		if listed, err := e.cas.ListCacheFiles(); err == nil {
+			for _, n := range listed {
+				if n == name {
+					continue
+				}
+				// a listed name with unknown content is judged by the reader-hash test alone
+				if r, err := e.cas.GetCacheFileReader(n); err == nil {
+					got, rerr := io.ReadAll(r)
+					r.Close()
+					if rerr == nil && hexOf(got) != n {
+						return fmt.Sprintf("blob served under a digest it does not hash to (GetCacheFileReader)\n  %s: listed name %s serves %d bytes hashing to %s", when, n, len(got), hexOf(got))
+					}
+				}
+			}
+		}
+		return ""
+	}
 	for k := 0; e.cas.VerifDrainQueueLen() > 0; k++ {
 		if k > (c.Retries+2)*(len(c.Ops)+1) {
 			return pbt.Fail("drain queue does not empty: %d items after %d steps", e.cas.VerifDrainQueueLen(), k)
 		}
 		e.cas.VerifDrainNext()
-		if msg, _ := observe(e.cas, contentOf, names, fmt.Sprintf("final drain step %d", k)); msg != "" {
+		if msg := observeOne(fmt.Sprintf("final drain step %d", k)); msg != "" {
 			return pbt.Fail("%s", msg)
 		}
 	}
-	if msg, _ := observe(e.cas, contentOf, names, "at quiescence"); msg != "" {
+	if msg := observeOne("at quiescence"); msg != "" {
 		return pbt.Fail("%s", msg)
 	}
 	var cl []string
